@@ -213,6 +213,7 @@ impl AsyncRead for SimRead {
             }
             w.read_waker = Some(cx.waker().clone());
             if !w.owed_triggers.is_empty() && w.suspend_violation.is_none() {
+                w.cx.probe("suspension_points_checked");
                 let rp = w.read_pos;
                 let owed = w.owed_triggers.iter().filter(|&&t| t <= rp).count();
                 if w.replies_seen < owed {
@@ -327,8 +328,21 @@ impl AsyncWrite for SimWrite {
         let v: Vec<&[u8]> = bufs.iter().map(|b| &**b).collect();
         self.do_write(cx, &v, true)
     }
-    fn poll_flush(self: Pin<&mut Self>, _cx: &mut Context<'_>) -> Poll<io::Result<()>> {
+    fn poll_flush(self: Pin<&mut Self>, cx: &mut Context<'_>) -> Poll<io::Result<()>> {
         let mut w = lock(&self.0);
+        if w.write_blocked {
+            w.write_waker = Some(cx.waker().clone());
+            return Poll::Pending;
+        }
+        let wp = w.knobs.write_pending;
+        if wp > 0 && w.cx.ch.chance(wp, 16) {
+            // a flush that is not ready yet: the caller has to keep whatever exclusion it holds
+            w.write_blocked = true;
+            w.write_waker = Some(cx.waker().clone());
+            w.cx.fault("flush_pending");
+            w.cx.ev("flush_pending", 0, 0);
+            return Poll::Pending;
+        }
         w.cx.ev("flush", 0, 0);
         Poll::Ready(Ok(()))
     }
@@ -447,6 +461,14 @@ impl Exec {
         let mut v = Vec::new();
         if w.avail < w.sent { v.push(Ev::Deliver); }
         if w.gate_open() && !w.peer_closed { v.push(Ev::PeerSend); }
+        else if w.next_seg < w.segs.len() && matches!(w.segs[w.next_seg].gate, Gate::AfterReplies(_)) { drop(w); let mut w = lock(&self.world); w.cx.fault("peer_withhold"); return self.enabled_env_rest(v, &w); }
+        if w.read_blocked { v.push(Ev::ReadUnblock); }
+        if w.write_blocked { v.push(Ev::WriteUnblock); }
+        if !w.peer_closed && w.close_when_done && w.next_seg >= w.segs.len() && w.avail >= w.sent { v.push(Ev::PeerClose); }
+        v
+    }
+
+    fn enabled_env_rest(&self, mut v: Vec<Ev>, w: &World) -> Vec<Ev> {
         if w.read_blocked { v.push(Ev::ReadUnblock); }
         if w.write_blocked { v.push(Ev::WriteUnblock); }
         if !w.peer_closed && w.close_when_done && w.next_seg >= w.segs.len() && w.avail >= w.sent { v.push(Ev::PeerClose); }
